@@ -454,6 +454,9 @@ func VerifyBatch(rand io.Reader, publicKeys []PublicKey, messages, sigs [][]byte
 		num -= batchSize
 	}
 
+	if verifHooks && num > 0 {
+		verifNoteRemainder(offset, num)
+	}
 	for i := 0; i < num; i++ {
 		// The NoPanic internal helper is used because the routine is
 		// intended to be tolerant of malformed inputs in a batch.
